@@ -702,45 +702,24 @@ def search_small_sets(ctx, exe, mexe, stats, budget, rng):
 
 
 def confirm_with_isomap(ctx, case, stats):
-    """run the real Isomap on a violating point set (heavy build: tapkee.hpp)"""
+    """run the real Isomap (public API driver) on a violating point set and on the same samples reversed"""
     try:
-        exe = ctx.cpp("harness/c03.cpp", name="c03_embed", defines=["C03_WITH_EMBED"], timeout=1500)
+        api = ctx.cpp("harness/c03_api.cpp", **API_BUILD)
     except vlib.BuildError as ex:
         ctx.note("Isomap confirmation build failed: " + str(ex)[-300:])
         return None
-    k = max(3, case["k"])
-    lines = [p_line("I", case.get("method", 0), 0, k, case["dim"], [tuple(p) for p in case["pts"]]),
-             p_line("I", case.get("method", 0), 0, k, case["dim"], [tuple(p) for p in reversed(case["pts"])])]
-    res = run_impl(ctx, exe, lines, timeout=300)
+    N = len(case["pts"])
+    if N < 5:
+        return None
+    k = max(3, min(case["k"], N - 1))
+    j = {"dim": case["dim"], "pts": [tuple(p) for p in case["pts"]], "k": k, "method": case.get("method", 0),
+         "api_method": 0}
+    res = run_impl(ctx, api, [a_line(j), a_line(dict(j, pts=list(reversed(j["pts"]))))], timeout=300)
     txt = "Isomap(k=%d) on the replay samples: %s ; on the same samples reversed: %s" % (
         k, res[0] if crashed(res[0]) else " ".join(res[0]), res[1] if crashed(res[1]) else " ".join(res[1]))
     ctx.note(txt)
     stats["isomap_confirmation"] = txt
     return txt
-
-
-def isomap_end_to_end(ctx, bases, stats):
-    """tapkee Isomap (check_connectivity default = true) on the generated point sets: expected to return finite
-    coordinates (counted in the evidence).  k < 3 is rejected by the library's own validation and skipped."""
-    try:
-        exe = ctx.cpp("harness/c03.cpp", name="c03_embed", defines=["C03_WITH_EMBED"], timeout=1500)
-    except vlib.BuildError as ex:
-        ctx.note("Isomap end-to-end build failed: " + str(ex)[-300:])
-        return 0
-    jobs = [{"dim": b["dim"], "pts": b["pts"], "k": b["k"], "method": m}
-            for i, b in enumerate(bases) if 3 <= b["k"] < len(b["pts"]) for m in (i % 3,)]
-    lines = [p_line("I", j["method"], 0, j["k"], j["dim"], j["pts"]) for j in jobs]
-    for j, ri in zip(jobs, run_impl(ctx, exe, lines, timeout=900)):
-        if skipped(ri):
-            continue
-        stats["isomap_runs"] += 1
-        if crashed(ri) or ri[:3] != ["I", "ok", "0"]:
-            # unreachability shows up as DBL_MAX in the geodesic matrix of the same job, which spec_points has
-            # already judged; any other Isomap failure is not this property's business: recorded, no verdict
-            stats["isomap_not_ok"] += 1
-            ctx.note("Isomap on %r k=%d method=%d: %s" % (j["pts"][:6], j["k"], j["method"],
-                                                           str(ri["crash"])[:200] if crashed(ri) else " ".join(ri)[:200]))
-    return len(jobs)
 
 
 def shrink_points(ctx, exe, mexe, case):
@@ -879,7 +858,7 @@ API_BUILD = dict(name="c03_api", sanitize=False, extra=["-O0"], timeout=1200)
 def new_stats():
     return {k: 0 for k in ("graphs", "strong", "first_not_strong", "spec_fail_graph", "graph_perms", "point_runs",
                            "raised", "spec_fail_points", "point_perms", "model_shipped_differs",
-                           "geodesic_matrices", "isomap_runs", "isomap_not_ok", "graphs_ragged", "api_runs", "api_k_graph_not_strong",
+                           "geodesic_matrices", "graphs_ragged", "api_runs", "api_k_graph_not_strong",
                            "api_violations", "api_other_failures", "recursion_replays", "edge_set_comparisons",
                            "method_set_comparisons")}
 
@@ -1007,10 +986,6 @@ def run(ctx):
             if case.get("kind") == "api" and len(case["pts"]) > 6:
                 ctx._violations[idx] = (shrink_api(ctx, api, case), why)
     ctx.note("t=%.0fs after point sets" % ctx.elapsed())
-    # ---- end to end (thorough tier; tapkee.hpp takes minutes to compile): the real Isomap on the same data
-    if not quick:
-        n += isomap_end_to_end(ctx, bases[:150], stats)
-
     # ---- small 1-D lattice sets (model-guided); the full enumeration is the search phase
     budget = 1500 if quick else 60000
     if ctx.is_unshown() and not ctx.has_violation():
@@ -1032,7 +1007,7 @@ def run(ctx):
         hist["malformed"] += 1
 
     # ---- confirmation of a points violation on the real Isomap (heavy build)
-    if ctx.has_violation() and (not quick or os.environ.get("VERIF_C03_EMBED") == "1"):
+    if ctx.has_violation():
         for case, why in ctx._violations:
             if case.get("kind") == "points":
                 confirm_with_isomap(ctx, case, stats)
@@ -1113,8 +1088,8 @@ def replay(ctx, case):
                 v, case["k"], METHODS[j["method"]], l[0], d if crashed(d) else " ".join(d)))
         if len(lens) == 2 and None not in lens and lens[0] != lens[1]:
             ctx.violation(case, "number of neighbours depends on the order of the samples: %r" % (lens,))
-        if os.environ.get("VERIF_C03_EMBED", "1") == "1":
-            t = confirm_with_isomap(ctx, dict(case, pts=pts), stats)
+        t = confirm_with_isomap(ctx, dict(case, pts=pts), stats)
+        if t:
             print(t)
     elif kind == "api":
         api = ctx.cpp("harness/c03_api.cpp", **API_BUILD)
